@@ -82,6 +82,8 @@ type lexer struct {
 	column   int           // current column starting from 1
 	ctx      ast.Context   // current context used during the scan
 	contexts []ast.Context // contexts of blocks nested in a macro or using statement.
+	bases    []ast.Context // base contexts, parallel to contexts.
+	base     ast.Context   // context of the text outside tags, script and style: the file's, or the result format's in a macro or using body with an explicit type.
 	tag      struct {      // current tag
 		name  string      // name
 		attr  string      // current attribute name
@@ -223,12 +225,12 @@ func (l *lexer) scan() {
 		var emittedURL bool
 		var jsComment jsCommentState
 
-		fileContext := l.ctx
+		l.base = l.ctx
 
 		// Indicates if the current line contains only spaces. Used only for Markdown context.
 		spacesOnlyLine := true
 
-		isHTML := l.ctx == ast.ContextHTML || l.ctx == ast.ContextMarkdown
+		isHTML := func() bool { return l.base == ast.ContextHTML || l.base == ast.ContextMarkdown }
 
 		if l.ctx == ast.ContextMarkdown {
 			p, l.ctx = l.scanCodeBlock(0)
@@ -389,7 +391,7 @@ func (l *lexer) scan() {
 					// End tag.
 					l.ctx = l.tag.ctx
 					l.tag.name = ""
-					l.tag.ctx = fileContext
+					l.tag.ctx = l.base
 					if c == '/' {
 						p++
 						l.column++
@@ -457,13 +459,13 @@ func (l *lexer) scan() {
 								if bytes.EqualFold(typ, jsonLDMimeType) {
 									l.tag.ctx = ast.ContextJSON
 								} else if !bytes.EqualFold(typ, jsMimeType) {
-									l.tag.ctx = fileContext
+									l.tag.ctx = l.base
 								}
 							}
 						case "style":
 							if typ := bytes.TrimSpace(l.text[l.tag.index : len(l.text)-len(l.src)+p]); len(typ) > 0 {
 								if !bytes.EqualFold(typ, cssMimeType) {
-									l.tag.ctx = fileContext
+									l.tag.ctx = l.base
 								}
 							}
 						}
@@ -477,9 +479,9 @@ func (l *lexer) scan() {
 				}
 
 			case ast.ContextCSS:
-				if isHTML && c == '<' && isEndStyle(l.src[p:]) {
+				if isHTML() && c == '<' && isEndStyle(l.src[p:]) {
 					// </style>
-					l.ctx = fileContext
+					l.ctx = l.base
 					p += 6
 					l.column += 6
 				} else if c == '"' || c == '\'' {
@@ -498,8 +500,8 @@ func (l *lexer) scan() {
 					l.ctx = ast.ContextCSS
 					quote = 0
 				case '<':
-					if isHTML && isEndStyle(l.src[p:]) {
-						l.ctx = fileContext
+					if isHTML() && isEndStyle(l.src[p:]) {
+						l.ctx = l.base
 						quote = 0
 						p += 6
 						l.column += 6
@@ -507,9 +509,9 @@ func (l *lexer) scan() {
 				}
 
 			case ast.ContextJS:
-				if isHTML && c == '<' && isEndScript(l.src[p:]) {
+				if isHTML() && c == '<' && isEndScript(l.src[p:]) {
 					// </script>
-					l.ctx = fileContext
+					l.ctx = l.base
 					jsComment = jsCommentNone
 					p += 7
 					l.column += 7
@@ -550,8 +552,8 @@ func (l *lexer) scan() {
 					l.ctx = ast.ContextJS
 					quote = 0
 				case '<':
-					if isHTML && isEndScript(l.src[p:]) {
-						l.ctx = fileContext
+					if isHTML() && isEndScript(l.src[p:]) {
+						l.ctx = l.base
 						quote = 0
 						p += 7
 						l.column += 7
@@ -559,9 +561,9 @@ func (l *lexer) scan() {
 				}
 
 			case ast.ContextJSON:
-				if isHTML && c == '<' && isEndScript(l.src[p:]) {
+				if isHTML() && c == '<' && isEndScript(l.src[p:]) {
 					// </script>
-					l.ctx = fileContext
+					l.ctx = l.base
 					p += 7
 					l.column += 7
 				} else if c == '"' {
@@ -580,8 +582,8 @@ func (l *lexer) scan() {
 					l.ctx = ast.ContextJSON
 					quote = 0
 				case '<':
-					if isHTML && isEndScript(l.src[p:]) {
-						l.ctx = fileContext
+					if isHTML() && isEndScript(l.src[p:]) {
+						l.ctx = l.base
 						quote = 0
 						p += 7
 						l.column += 7
@@ -1139,6 +1141,8 @@ LOOP:
 							for i, name := range formatTypeName {
 								if name == ident.txt {
 									l.ctx = ast.Context(i)
+									l.base = l.ctx
+									l.tag.ctx = l.ctx
 									break
 								}
 							}
@@ -1366,19 +1370,27 @@ LOOP:
 					case tokenMacro:
 						macroOrUsing = true
 						l.contexts = append(l.contexts, l.ctx)
+						l.bases = append(l.bases, l.base)
 					case tokenEnd:
 						if last := len(l.contexts) - 1; last >= 0 {
 							l.ctx = l.contexts[last]
 							l.contexts = l.contexts[:last]
+							if l.base != l.bases[last] {
+								l.base = l.bases[last]
+								l.tag.ctx = l.base
+							}
+							l.bases = l.bases[:last]
 						}
 					case tokenIf, tokenFor, tokenSwitch, tokenSelect, tokenRaw:
 						if len(l.contexts) > 0 {
 							l.contexts = append(l.contexts, l.ctx)
+							l.bases = append(l.bases, l.base)
 						}
 					}
 				} else if typ == tokenUsing {
 					macroOrUsing = true
 					l.contexts = append(l.contexts, l.ctx)
+					l.bases = append(l.bases, l.base)
 				} else if macroOrUsing && typ == tokenIdentifier && l.totals != first+1 {
 					ident.index = l.totals
 					ident.txt = txt
